@@ -121,13 +121,15 @@ def static_call_sites():
     return sorted(set(sites))
 
 
-def run_catalogue(filename="catalogue_user_prog.py", text=CATALOGUE, reset=True):
+def run_catalogue(filename="catalogue_user_prog.py", text=CATALOGUE, reset=True, subdir=None):
     """Execute the catalogue from a real file; returns rows (entry, file_ok, line_ok, text_ok) and
     the set of call sites reached."""
     from nada_dsl import source_ref, ast_util
     from nada_dsl.source_ref import SourceRef
     tmp = tempfile.mkdtemp(prefix="nvcat")
-    path = os.path.join(tmp, filename)
+    if subdir:
+        os.makedirs(os.path.join(tmp, subdir), exist_ok=True)
+    path = os.path.join(tmp, subdir or "", filename)
     with open(path, "w", encoding="utf-8") as f:
         f.write(text)
     reached = set()
@@ -191,7 +193,8 @@ def run_catalogue(filename="catalogue_user_prog.py", text=CATALOGUE, reset=True)
             if type(op).__name__ == "NadaFunctionArgASTOperation" and k > first_id:
                 sr = op.source_ref
                 rows.append((f"NadaFunctionArg#{op.name}", sr.file == filename, sr.lineno > 0,
-                             sr.length > 0 and src[sr.offset:sr.offset + sr.length] == lines[sr.lineno - 1]))
+                             sr.length > 0 and 1 <= sr.lineno <= len(lines)
+                             and src[sr.offset:sr.offset + sr.length] == lines[sr.lineno - 1]))
     finally:
         if reset:
             reset_globals()
